@@ -128,4 +128,57 @@ theorem native_refuses_onlyUnusable (c : Cfg) (k : Kernel) (pid : Nat) (st : PSt
     simp only [cextAffinitySet, hm, sysSchedSetaffinity, resolve_pid k hpid, hst, hgr,
       List.isEmpty_nil, if_true, ofSys]
 
+/-- what the specification can promise for a set form of `cpu_affinity` -/
+theorem expect_affinity_set_shape {k : Kernel} {pid : Nat} {st : PState} {cpus : List Int} {o : Out} {k' : Kernel}
+    (hs : Spec.expect k pid st (.cpuAffinity (some cpus)) = .promised o k') :
+    o = .ok .none ∨ (o = .exc .valueError ∧ k' = k) := by
+  simp only [Spec.expect] at hs
+  split at hs
+  · simp only [Verdict.promised.injEq] at hs; exact Or.inl hs.1.symm
+  · split at hs
+    · simp only [Verdict.promised.injEq] at hs; exact Or.inl hs.1.symm
+    · split at hs
+      · simp only [Verdict.promised.injEq] at hs; exact Or.inr ⟨hs.1.symm, hs.2.symm⟩
+      · cases hs
+
+theorem wrapExc_valueError {pid : Nat} {e : NErr} (h : wrapExc pid e = .valueError) : e = .valueError := by
+  cases e with
+  | os er => cases er <;> simp [wrapExc] at h
+  | osRaw n => simp only [wrapExc] at h; split at h <;> cases h
+  | valueError => rfl
+  | overflowError => simp [wrapExc] at h
+  | undefinedC => simp [wrapExc] at h
+
+/-- `cpu_affinity_set` answered: then the native layer succeeded, or refused in one of the two diagnosed ways -/
+theorem cpuAffinitySet_cases (k : Kernel) (pid : Nat) (l : List Int) (o : Out) (k' : Kernel)
+    (h : cpuAffinitySet k pid l = (o, k')) :
+    (o = .ok .none → cextAffinitySet k pid l = .ok k') ∧
+    (o = .exc .valueError → (cextAffinitySet k pid l = .error .valueError ∨
+      cextAffinitySet k pid l = .error (.os .EINVAL))) := by
+  unfold cpuAffinitySet at h
+  cases hn : cextAffinitySet k pid l with
+  | ok k2 =>
+    rw [hn] at h
+    simp only [Prod.mk.injEq] at h
+    exact ⟨fun _ => by rw [h.2], fun ho => by rw [ho] at h; cases h.1⟩
+  | error e =>
+    rw [hn] at h
+    refine ⟨fun ho => ?_, fun ho => ?_⟩
+    · subst ho
+      simp only at h
+      split at h
+      · split at h
+        · cases h
+        · split at h <;> cases h
+      · cases h
+    · by_cases he : e = .valueError ∨ e = .os .EINVAL
+      · rcases he with he | he <;> subst he <;> simp
+      · subst ho
+        simp only [he, if_false, Prod.mk.injEq, Out.exc.injEq] at h
+        exact absurd (Or.inl (wrapExc_valueError h.1)) he
+
+theorem cpuAffinitySetWith_ok (b : Bool) (el : Option (List Nat)) (k : Kernel) (pid : Nat) (l : List Int) (k' : Kernel)
+    (h : cextAffinitySet k pid l = .ok k') : cpuAffinitySetWith b el k pid l = (.ok .none, k') := by
+  unfold cpuAffinitySetWith; rw [h]
+
 end Psutil.C18
